@@ -144,6 +144,8 @@ def unscribble : List String → List String
   | ["trie.marshal-scribble", _] => ["trie.marshal"]
   | ["trie.marshal-twice"] => ["trie.marshal"]
   | ["trie.marshal-hold"] => ["trie.marshal"]
+  -- building again from the caller's (edited) key slice is building from those keys
+  | "trie.renew" :: rest => "trie.new" :: rest
   | toks => toks
 
 def stepCore (st : State) (toks : List String) : State × String :=
